@@ -556,7 +556,7 @@ Section Clean.
     inv_old : forall k v, In (k, v) (allm s) -> v < n0 -> ~ In v (constr s);
     inv_new : forall k v, In (k, v) (allm s) -> n0 <= v -> In v (constr s);
     inv_oldloc : forall x g t, x < n0 -> In (g, t) (local_of x s) -> t < n0;
-    inv_loc : forall x g t, In (g, t) (local_of x s) -> t < length (heap s) }.
+    inv_loc : forall x g t, In (g, t) (local_of x s) -> x < length (heap s) /\ t < length (heap s) }.
 
   Record Step (s s' : state) : Prop := mkStep {
     st_inv : Inv s';
@@ -596,9 +596,9 @@ Section Clean.
   Lemma Pres_refl s : Pres s s. Proof. intros k v H; exact H. Qed.
   Lemma Pres_trans s s1 s2 : Pres s s1 -> Pres s1 s2 -> Pres s s2. Proof. intros A B k v H. auto. Qed.
 
-  Lemma Step_set_local s m g v : Inv s -> n0 <= m -> v < length (heap s) -> Step s (set_local m g v s).
+  Lemma Step_set_local s m g v : Inv s -> n0 <= m -> m < length (heap s) -> v < length (heap s) -> Step s (set_local m g v s).
   Proof.
-    intros HI Hm Hv.
+    intros HI Hm Hml Hv.
     assert (Hloc : forall x, x <> m -> local_of x (set_local m g v s) = local_of x s).
     { intros x Hx. unfold set_local. rewrite local_of_dset. destruct (Nat.eqb m x) eqn:E; [apply Nat.eqb_eq in E; congruence | reflexivity]. }
     assert (Hlm : forall g' t, In (g', t) (local_of m (set_local m g v s)) -> In (g', t) (local_of m s) \/ t = v).
@@ -610,7 +610,7 @@ Section Clean.
     constructor; [constructor; auto| reflexivity | | auto | apply incl_refl].
     - intros x g' t Hx. rewrite Hloc by lia. apply G. exact Hx.
     - intros x g' t. destruct (Nat.eq_dec x m) as [->|Hne].
-      + intro Hin. apply Hlm in Hin as [Hin| ->]; [eapply H; eassumption | exact Hv].
+      + intro Hin. apply Hlm in Hin as [Hin| ->]; [eapply H; eassumption | split; [exact Hml | exact Hv]].
       + rewrite Hloc by exact Hne. apply H.
     - intros x Hx. apply Hloc. lia.
   Qed.
@@ -628,7 +628,7 @@ Section Clean.
     - intros k v Hin Hv [Hc|Hc]; [lia | eapply E; eassumption].
     - intros k v Hin Hv. right. eapply F; eassumption.
     - exact G.
-    - intros x g' t Hin. rewrite app_length. specialize (H x g' t Hin). lia.
+    - intros x g' t Hin. rewrite app_length. destruct (H x g' t Hin). split; lia.
     - apply incl_tl, incl_refl.
   Qed.
 
@@ -741,16 +741,17 @@ Section CleanLoad.
   Lemma set_all_same g m s : dget g (allm s) = Some m -> allm (set_all g m s) = allm s.
   Proof. intro H. autorewrite with st. apply dset_same. exact H. Qed.
 
-  Lemma load_model_cl ld m g s r s' :
-    loader_cl ld -> Inv s -> n0 <= m -> load_model ld m g s = (r, s') ->
+  Lemma load_model_cl ld m mi g s r s' :
+    loader_cl ld -> Inv s -> n0 <= m -> nth_error (heap s) m = Some mi -> load_model ld m g s = (r, s') ->
     Step s s' /\ (r = None -> Pres s s').
   Proof.
-    intros Hld HI Hm. unfold load_model.
+    intros Hld HI Hm Hh. unfold load_model.
+    assert (Hml : m < length (heap s)) by (apply nth_error_Some; congruence).
     destruct (dhas g (local_of m s)).
     { intro H. inversion H; subst. split; [apply Step_refl; exact HI | intros _; apply Pres_refl]. }
     destruct (dget g (allm s)) as [m'|] eqn:Eg.
     { intro H. inversion H; subst. split; [|intros _ k v Hk; exact Hk].
-      apply Step_set_local; auto. apply dget_In in Eg. destruct (inv_file n0 s HI g m' Eg) as [mi [Hmi _]].
+      apply Step_set_local; auto. apply dget_In in Eg. destruct (inv_file n0 s HI g m' Eg) as [mi' [Hmi _]].
       apply nth_error_Some. congruence. }
     destruct (Hld g s HI Eg) as [Hst Hok].
     destruct (ld g s) as [[e|m'] s1]; cbn [fst snd] in *.
@@ -759,23 +760,24 @@ Section CleanLoad.
       assert (Hst1 : Step s (set_all g m' s1)).
       { eapply Step_ext; [exact Hst | reflexivity | apply set_all_same; exact Hg1 | reflexivity | reflexivity]. }
       split.
-      + eapply Step_trans; [exact Hst1|]. apply Step_set_local; [apply (st_inv _ _ _ Hst1) | exact Hm|].
-        autorewrite with st. apply dget_In in Hg1. destruct (inv_file n0 s1 (st_inv _ _ _ Hst) g m' Hg1) as [mi [Hmi _]].
+      + eapply Step_trans; [exact Hst1|]. apply Step_set_local; [apply (st_inv _ _ _ Hst1) | exact Hm | |].
+        { autorewrite with st. apply nth_error_Some. rewrite (st_heap _ _ _ Hst m mi Hh). discriminate. }
+        autorewrite with st. apply dget_In in Hg1. destruct (inv_file n0 s1 (st_inv _ _ _ Hst) g m' Hg1) as [mi' [Hmi _]].
         apply nth_error_Some. congruence.
       + intros _ k v Hk. autorewrite with st. rewrite (dset_same g m' (allm s1) Hg1). apply Hp. exact Hk.
   Qed.
 
-  Lemma load_files_cl ld m gs : forall s r s',
-    loader_cl ld -> Inv s -> n0 <= m -> load_files ld m gs s = (r, s') ->
+  Lemma load_files_cl ld m mi gs : forall s r s',
+    loader_cl ld -> Inv s -> n0 <= m -> nth_error (heap s) m = Some mi -> load_files ld m gs s = (r, s') ->
     Step s s' /\ (r = None -> Pres s s').
   Proof.
-    induction gs as [|g gs IH]; intros s r s' Hld HI Hm; cbn.
+    induction gs as [|g gs IH]; intros s r s' Hld HI Hm Hh; cbn.
     - intro H. inversion H; subst. split; [apply Step_refl; exact HI | intros _; apply Pres_refl].
     - destruct (load_model ld m g s) as [r1 s1] eqn:E1.
-      destruct (load_model_cl _ _ _ _ _ _ Hld HI Hm E1) as [Hst1 Hp1].
+      destruct (load_model_cl _ _ _ _ _ _ _ Hld HI Hm Hh E1) as [Hst1 Hp1].
       destruct r1 as [e|].
       + intro H. inversion H; subst. split; [exact Hst1 | discriminate].
-      + intro H. destruct (IH s1 r s' Hld (st_inv _ _ _ Hst1) Hm H) as [Hst2 Hp2].
+      + intro H. destruct (IH s1 r s' Hld (st_inv _ _ _ Hst1) Hm (st_heap _ _ _ Hst1 m mi Hh) H) as [Hst2 Hp2].
         split; [eapply Step_trans; eassumption|]. intro Hr. eapply Pres_trans; [apply Hp1; reflexivity | apply Hp2; exact Hr].
   Qed.
 
@@ -804,7 +806,7 @@ Section CleanLoad.
       destruct gs as [|g0 gs0].
       + intro H. inversion H; subst. split; [exact Hst1 | discriminate].
       + destruct (load_files ld m (g0 :: gs0) (update_in_repo m mf s)) as [r2 s2] eqn:E2.
-        destruct (load_files_cl _ _ _ _ _ _ Hld (st_inv _ _ _ Hst1) Hm E2) as [Hst2 Hp2].
+        destruct (load_files_cl _ _ _ _ _ _ _ Hld (st_inv _ _ _ Hst1) Hm (st_heap _ _ _ Hst1 m mi Hh) E2) as [Hst2 Hp2].
         assert (Hst12 : Step s s2) by (eapply Step_trans; eassumption).
         destruct r2 as [e|].
         * intro H. inversion H; subst. split; [exact Hst12 | discriminate].
@@ -885,7 +887,7 @@ End CleanLoad.
 (* ================================================================== 4. the state between two loads; C18 *)
 Definition Stable (s : state) : Prop :=
   NoDup (keys s) /\ NoDup (vals s) /\ file_ok s /\ (forall v, In v (vals s) -> ~ In v (constr s)) /\
-  (forall x g t, In (g, t) (local_of x s) -> t < length (heap s)).
+  (forall x g t, In (g, t) (local_of x s) -> x < length (heap s) /\ t < length (heap s)).
 
 Lemma Stable_Inv s : Stable s ->
   Inv (length (heap s)) s /\ (forall kv, In kv (allm s) -> is_old (length (heap s)) kv = true).
@@ -897,7 +899,7 @@ Proof.
   - constructor; auto.
     + intros k v Hin _. apply D. apply in_map_iff. exists (k, v). auto.
     + intros k v Hin Hge. specialize (Hlt k v Hin). lia.
-    + intros x g t _ Hin. eapply E. exact Hin.
+    + intros x g t _ Hin. apply (E x g t Hin).
   - intros [k v] Hin. unfold is_old. cbn. apply Nat.ltb_lt. eapply Hlt. exact Hin.
 Qed.
 
@@ -912,8 +914,8 @@ Qed.
 Lemma Stable_begin_op c s : Stable s -> Stable (begin_op c s).
 Proof.
   intros [A [B [C [D E]]]]. unfold begin_op. destruct (cglobal c).
-  - repeat split; assumption.
-  - repeat split; cbn; try constructor; try tauto. intros k v [].
+  - split; [exact A|]. split; [exact B|]. split; [exact C|]. split; [exact D | exact E].
+  - split; [constructor|]. split; [constructor|]. split; [intros k v []|]. split; [intros v []|]. exact E.
 Qed.
 
 Section CleanMain.
@@ -1190,3 +1192,231 @@ Proof.
   intros HS E Hg Hk Hf. destruct (failure_leaves_only_earlier_models fs c f s e s' HS E) as [_ Ha].
   specialize (Ha Hg). destruct (cached_load_returns_cached fs' c k s' v Hg ltac:(rewrite Ha; exact Hk) Hf) as [A [B _]]. auto.
 Qed.
+
+(* ================================================================== 7. local models are the registered models (identity) *)
+Lemma In_dset_inv {A} (g : nat) (v : A) l g' t : In (g', t) (dset g v l) -> (g' = g /\ t = v) \/ In (g', t) l.
+Proof.
+  induction l as [|[a b] l IH]; cbn.
+  - intros [H|[]]. inversion H. auto.
+  - destruct (Nat.eqb g a); cbn.
+    + intros [H|H]; [inversion H; auto | right; right; exact H].
+    + intros [H|H]; [right; left; exact H|]. destruct (IH H) as [H1|H1]; [left; exact H1 | right; right; exact H1].
+Qed.
+
+Section Ident.
+  Variable fs : list file.
+  Variable c : cfg.
+  Variable n0 : nat.
+  Notation Inv := (Inv n0). Notation Step := (Step n0).
+
+  (* every local_models entry of a model of this load, or of a registered model, is the all_models entry of its file *)
+  Definition LR (s : state) : Prop :=
+    forall x g t, In (g, t) (local_of x s) -> (n0 <= x \/ In x (vals s)) -> dget g (allm s) = Some t.
+
+  Lemma LR_ext s s' : allm s' = allm s -> locals s' = locals s -> LR s -> LR s'.
+  Proof. intros Ea El H x g t. rewrite (local_of_ext s s' x El), Ea. apply H. Qed.
+
+  Lemma LR_set_all s g m : LR s -> dget g (allm s) = None -> n0 <= m -> LR (set_all g m s).
+  Proof.
+    intros H Hg Hm x g' t Hin Hx.
+    assert (Hin' : In (g', t) (local_of x s)) by exact Hin.
+    assert (Hx' : n0 <= x \/ In x (vals s)).
+    { destruct Hx as [Hx|Hx]; [left; exact Hx|]. autorewrite with st in Hx. rewrite (dset_fresh g m (allm s) Hg), map_app in Hx.
+      apply in_app_or in Hx as [Hx|[Hx|[]]]; [right; exact Hx | left; cbn in Hx; subst; exact Hm]. }
+    specialize (H x g' t Hin' Hx'). autorewrite with st.
+    destruct (Nat.eq_dec g g') as [->|Hne]; [congruence|]. rewrite dget_dset_other by exact Hne. exact H.
+  Qed.
+
+  Lemma LR_set_local s m g v : LR s -> dget g (allm s) = Some v -> LR (set_local m g v s).
+  Proof.
+    intros H Hg x g' t Hin Hx. rewrite allm_set_local in *. unfold set_local in Hin. rewrite local_of_dset in Hin.
+    destruct (Nat.eqb m x) eqn:E.
+    - apply Nat.eqb_eq in E. subst x. apply In_dset_inv in Hin as [[-> ->]|Hin]; [exact Hg | apply (H m g' t Hin Hx)].
+    - apply (H x g' t Hin Hx).
+  Qed.
+
+  Definition loader_lr (ld : nat -> state -> (err + nat) * state) : Prop :=
+    forall g s, Inv s -> LR s -> dget g (allm s) = None -> forall m, fst (ld g s) = inr m -> LR (snd (ld g s)).
+
+  Lemma load_model_lr ld m mi g s s' :
+    loader_cl n0 ld -> loader_lr ld -> Inv s -> LR s -> n0 <= m -> nth_error (heap s) m = Some mi ->
+    load_model ld m g s = (None, s') -> LR s'.
+  Proof.
+    intros Hcl Hlr HI HL Hm Hh. unfold load_model.
+    destruct (dhas g (local_of m s)). { intro H; inversion H; subst; exact HL. }
+    destruct (dget g (allm s)) as [m'|] eqn:Eg.
+    { intro H; inversion H; subst. apply LR_set_local; assumption. }
+    destruct (Hcl g s HI Eg) as [Hst Hok]. specialize (Hlr g s HI HL Eg).
+    destruct (ld g s) as [[e|m'] s1]; cbn [fst snd] in *; [discriminate|].
+    intro H; inversion H; subst. destruct (Hok m' eq_refl) as [Hp Hg1]. specialize (Hlr m' eq_refl).
+    apply LR_set_local.
+    - eapply LR_ext; [apply set_all_same; exact Hg1 | reflexivity | exact Hlr].
+    - rewrite set_all_same by exact Hg1. exact Hg1.
+  Qed.
+
+  Lemma load_files_lr ld m mi gs : forall s s',
+    loader_cl n0 ld -> loader_lr ld -> Inv s -> LR s -> n0 <= m -> nth_error (heap s) m = Some mi ->
+    load_files ld m gs s = (None, s') -> LR s'.
+  Proof.
+    induction gs as [|g gs IH]; intros s s' Hcl Hlr HI HL Hm Hh; cbn.
+    - intro H; inversion H; subst; exact HL.
+    - destruct (load_model ld m g s) as [r1 s1] eqn:E1.
+      destruct (load_model_cl n0 _ _ _ _ _ _ _ Hcl HI Hm Hh E1) as [Hst1 _].
+      destruct r1 as [e|]; [discriminate|].
+      assert (HL1 : LR s1) by (eapply load_model_lr; eassumption).
+      intro H. exact (IH s1 s' Hcl Hlr (st_inv _ _ _ Hst1) HL1 Hm (st_heap _ _ _ Hst1 m mi Hh) H).
+  Qed.
+
+  Lemma load_stmts_lr ld m mf mi stmts : forall s s',
+    loader_cl n0 ld -> loader_lr ld -> Inv s -> LR s -> n0 <= m -> In m (constr s) ->
+    nth_error (heap s) m = Some mi -> mfile mi = mf ->
+    load_stmts ld m mf stmts s = (None, s') -> LR s'.
+  Proof.
+    induction stmts as [|gs rest IH]; intros s s' Hcl Hlr HI HL Hm Hc Hh Hf; cbn.
+    - intro H; inversion H; subst; exact HL.
+    - destruct (update_in_repo_cl n0 s m mf mi HI Hm Hc Hh Hf) as [Hst1 _].
+      assert (HL1 : LR (update_in_repo m mf s)).
+      { unfold update_in_repo. destruct (dhas mf (allm s)) eqn:E; [exact HL|]. apply LR_set_all; [exact HL | | exact Hm].
+        unfold dhas in E. destruct (dget mf (allm s)); [discriminate | reflexivity]. }
+      destruct gs as [|g0 gs0]; [discriminate|].
+      destruct (load_files ld m (g0 :: gs0) (update_in_repo m mf s)) as [r2 s2] eqn:E2.
+      destruct (load_files_cl n0 _ _ _ _ _ _ _ Hcl (st_inv _ _ _ Hst1) Hm (st_heap _ _ _ Hst1 m mi Hh) E2) as [Hst2 _].
+      destruct r2 as [e|]; [discriminate|].
+      assert (HL2 : LR s2).
+      { eapply load_files_lr; [exact Hcl | exact Hlr | apply (st_inv _ _ _ Hst1) | exact HL1 | exact Hm | exact (st_heap _ _ _ Hst1 m mi Hh) | exact E2]. }
+      pose proof (Step_trans _ _ _ _ Hst1 Hst2) as Hst12.
+      intro H. exact (IH s2 s' Hcl Hlr (st_inv _ _ _ Hst12) HL2 Hm (st_constr _ _ _ Hst12 m Hc) (st_heap _ _ _ Hst12 m mi Hh) Hf H).
+  Qed.
+
+  Lemma load_file_lr fuel : forall main g s,
+    Inv s -> LR s -> dget g (allm s) = None ->
+    forall m, fst (load_file fs c fuel main g s) = inr m -> LR (snd (load_file fs c fuel main g s)).
+  Proof.
+    induction fuel as [|k IH]; intros main g s HI HL Hg m; [cbn; discriminate|].
+    cbn [load_file].
+    destruct (nth_error fs g) as [fc|] eqn:Efc; [|cbn; discriminate].
+    assert (Hst1 : Step s (with_reads s (reads s ++ [g]))) by (eapply Step_ext; [apply Step_refl; exact HI | reflexivity..]).
+    destruct (fsyn fc); [cbn; discriminate|].
+    rewrite src_register_before.
+    set (s1 := with_reads s (reads s ++ [g])) in *.
+    set (mid := length (heap s1)).
+    set (s2 := alloc g fc s1).
+    assert (Hst2 : Step s s2) by (eapply Step_trans; [exact Hst1 | apply Step_alloc; apply (st_inv _ _ _ Hst1)]).
+    assert (Hmid : n0 <= mid) by (apply (inv_n0 n0 s1 (st_inv _ _ _ Hst1))).
+    assert (Hc2 : In mid (constr s2)) by (subst s2; autorewrite with st; left; reflexivity).
+    assert (Hh2 : nth_error (heap s2) mid = Some (mkMinfo g (curop s1) fc)).
+    { subst s2 mid. autorewrite with st. rewrite nth_error_app2 by lia. rewrite Nat.sub_diag. reflexivity. }
+    assert (Hv2 : ~ In mid (vals s2)).
+    { intro Hin. apply in_map_iff in Hin as [[k' v] [Hv Hin]]. cbn in Hv. subst v.
+      destruct (inv_file n0 s1 (st_inv _ _ _ Hst1) k' mid Hin) as [mi' [H1 _]].
+      assert (mid < length (heap s1)) by (apply nth_error_Some; congruence). subst mid. lia. }
+    assert (HL2 : LR s2) by (eapply LR_ext; [| |exact HL]; reflexivity).
+    set (s3 := if (main && negb (cglobal c))%bool then s2 else set_all g mid s2).
+    assert (H3 : Step s2 s3 /\ LR s3).
+    { subst s3. destruct (main && negb (cglobal c))%bool.
+      - split; [apply Step_refl; apply (st_inv _ _ _ Hst2) | exact HL2].
+      - destruct (Step_set_all_fresh n0 s2 g mid _ (st_inv _ _ _ Hst2) Hg Hmid Hc2 Hh2 eq_refl Hv2) as [A _].
+        split; [exact A | apply LR_set_all; [exact HL2 | exact Hg | exact Hmid]]. }
+    destruct H3 as [Hst23 HL3].
+    assert (HI3 : Inv s3) by apply (st_inv _ _ _ Hst23).
+    assert (Hcl : loader_cl n0 (load_file fs c k false)).
+    { intros g' s' HI' Hg'. destruct (load_file_cl fs c n0 k false g' s' HI' Hg') as [A [B _]]. split; [exact A|].
+      intros m' Hm'. destruct (B m' Hm') as [B1 [_ [_ B3]]]. split; [exact B1 | apply B3; reflexivity]. }
+    assert (Hlr : loader_lr (load_file fs c k false)) by (intros g' s' HI' HL' Hg' m' Hm'; apply (IH false g' s' HI' HL' Hg' m' Hm')).
+    assert (Hc3 : In mid (constr s3)) by (subst s3; destruct (main && negb (cglobal c))%bool; exact Hc2).
+    assert (Hh3 : nth_error (heap s3) mid = Some (mkMinfo g (curop s1) fc)) by (subst s3; destruct (main && negb (cglobal c))%bool; exact Hh2).
+    destruct (if (clazy c && is_nil (frefs fc))%bool then (None, s3)
+              else load_stmts (load_file fs c k false) mid g (fimports fc) s3) as [r s4] eqn:E4.
+    assert (HL4 : r = None -> LR s4).
+    { intro Hr. subst r. destruct (clazy c && is_nil (frefs fc))%bool.
+      - inversion E4; subst; exact HL3.
+      - eapply load_stmts_lr; [exact Hcl | exact Hlr | exact HI3 | exact HL3 | exact Hmid | exact Hc3 | exact Hh3 | reflexivity | exact E4]. }
+    destruct r as [e|]; [cbn; discriminate|].
+    destruct main.
+    - cbn [fst snd]. intros _. apply HL4; reflexivity.
+    - destruct (fmp fc); cbn [fst snd]; [discriminate|]. intros _. apply HL4; reflexivity.
+  Qed.
+End Ident.
+
+(* between two loads: the local models of every registered model are registered models *)
+Definition LocReg (s : state) : Prop :=
+  forall x g t, In (g, t) (local_of x s) -> In x (vals s) -> dget g (allm s) = Some t.
+
+Lemma LocReg_init b : LocReg (init_state b).
+Proof. intros x g t _ []. Qed.
+
+Theorem load_main_ok_registered fs c f s m s' :
+  Stable s -> LocReg s -> load_main fs c f s = (inr m, s') ->
+  forall x g t, In (g, t) (local_of x s') -> (In x (vals s') \/ x = m) -> dget g (allm s') = Some t.
+Proof.
+  intros HS HL. unfold load_main. set (s0 := begin_op c s).
+  pose proof (Stable_begin_op c s HS) as HS0. fold s0 in HS0.
+  destruct (Stable_Inv s0 HS0) as [HI0 Hold0].
+  assert (HL0 : LocReg s0).
+  { subst s0. unfold begin_op. destruct (cglobal c); [exact HL|]. intros x g t _ []. }
+  destruct (if cglobal c then dget f (allm s0) else None) as [m0|] eqn:Ec.
+  { destruct (flag_of fmp m0 s0); intro H; inversion H; subst. intros x g t Hin Hx. apply (HL0 x g t Hin).
+    destruct Hx as [Hx | ->]; [exact Hx|]. destruct (cglobal c); [|discriminate]. apply dget_In in Ec.
+    apply in_map_iff. exists (f, m). auto. }
+  assert (Hg : dget f (allm s0) = None).
+  { destruct (cglobal c) eqn:Eg; [exact Ec|]. subst s0. unfold begin_op. rewrite Eg. reflexivity. }
+  set (n0 := length (heap s0)) in *.
+  assert (HLR0 : LR n0 s0).
+  { intros x g t Hin [Hx|Hx]; [|apply (HL0 x g t Hin Hx)]. destruct HS0 as [_ [_ [_ [_ E]]]]. destruct (E x g t Hin). unfold n0 in Hx. lia. }
+  destruct (load_file_cl fs c n0 (S (length fs)) true f s0 HI0 Hg) as [Hst [Hok _]].
+  pose proof (load_file_lr fs c n0 (S (length fs)) true f s0 HI0 HLR0 Hg) as Hlr.
+  destruct (load_file fs c (S (length fs)) true f s0) as [[e1|m1] s1]; cbn [fst snd] in *; [discriminate|].
+  destruct (Hok m1 eq_refl) as [_ [Hm1 [Hc _]]]. specialize (Hlr m1 eq_refl). intro H.
+  destruct (finish_main_ok_stable n0 c f m1 _ s1 m s' (st_inv _ _ _ Hst) Hc H) as [-> [Ea [_ [El _]]]].
+  intros x g t Hin Hx. rewrite Ea. rewrite (local_of_ext s1 s' x El) in Hin. apply (Hlr x g t Hin).
+  destruct Hx as [Hx | ->]; [right; rewrite <- Ea; exact Hx | left; exact Hm1].
+Qed.
+
+Theorem load_main_locreg fs c f s : Stable s -> LocReg s -> LocReg (snd (load_main fs c f s)).
+Proof.
+  intros HS HL. destruct (load_main fs c f s) as [[e|m] s'] eqn:E; cbn [snd].
+  - destruct (load_main_failure_clean fs c f s e s' HS E) as [Ha [Hl _]].
+    intros x g t Hin Hx. rewrite Ha in *. unfold begin_op in *. destruct (cglobal c); cbn [allm with_reads with_allm map] in *; [|destruct Hx].
+    assert (Hlt : x < length (heap s)).
+    { apply in_map_iff in Hx as [[k v] [<- Hx]]. destruct HS as [_ [_ [C _]]]. destruct (C k v Hx) as [mi [H _]]. apply nth_error_Some. cbn. congruence. }
+    rewrite (Hl x Hlt) in Hin. apply (HL x g t Hin Hx).
+  - intros x g t Hin Hx. eapply (load_main_ok_registered fs c f s m s' HS HL E); [exact Hin | left; exact Hx].
+Qed.
+
+Theorem run_hist_locreg c ops : forall fs s, Stable s -> LocReg s -> LocReg (run_hist c fs s ops).
+Proof.
+  induction ops as [|[f|f fc] t IH]; intros fs s HS HL; cbn; [exact HL | | apply IH; assumption].
+  apply IH; [apply load_main_stable; exact HS | apply load_main_locreg; assumption].
+Qed.
+
+(* C17 identity: after a successful load, every name looked up from a model of the result resolves into the
+   model itself, a builtin model, or THE model registered in all_models for the target's file *)
+Theorem identity_after_load fs c f s m s' x n t i :
+  Stable s -> LocReg s -> load_main fs c f s = (inr m, s') ->
+  In x (included m s') -> resolve_name c s' x n = Some (t, i) ->
+  t = x \/ In t (cbuiltins c) \/ (dget (file_of t s') (allm s') = Some t).
+Proof.
+  intros HS HL E Hx Hr. destruct (resolve_name_in c s' x n t i Hr) as [[H|[H|H]] _]; [left; exact H | | right; left; exact H].
+  right. right. apply in_map_iff in H as [[g t'] [Ht Hin]]. cbn in Ht. subst t'.
+  assert (Hreg : dget g (allm s') = Some t).
+  { apply (load_main_ok_registered fs c f s m s' HS HL E x g t Hin). apply In_included in Hx. exact Hx. }
+  pose proof (load_main_stable fs c f s HS) as HS'. rewrite E in HS'. cbn in HS'.
+  destruct HS' as [_ [_ [C _]]]. destruct (C g t (dget_In _ _ _ Hreg)) as [mi [H1 H2]].
+  unfold file_of. rewrite H1, H2. exact Hreg.
+Qed.
+
+Theorem identity_in_history c b fs0 ops fs f m s' x n t i :
+  let s := run_hist c fs0 (init_state b) ops in
+  load_main fs c f s = (inr m, s') -> In x (included m s') -> resolve_name c s' x n = Some (t, i) ->
+  (t = x \/ In t (cbuiltins c) \/ dget (file_of t s') (allm s') = Some t) /\
+  exists fc, cont_of t s' = Some fc /\ nth_error (felems fc) i = Some n.
+Proof.
+  intros s E Hx Hr. split; [|apply (resolve_name_in c s' x n t i Hr)].
+  eapply (identity_after_load fs c f s m s' x n t i); try eassumption.
+  - apply run_hist_stable, Stable_init.
+  - apply run_hist_locreg; [apply Stable_init | apply LocReg_init].
+Qed.
+
+Lemma registered_same_file_same_model s t1 t2 :
+  dget (file_of t1 s) (allm s) = Some t1 -> dget (file_of t2 s) (allm s) = Some t2 -> file_of t1 s = file_of t2 s -> t1 = t2.
+Proof. intros H1 H2 E. rewrite E in H1. congruence. Qed.
